@@ -604,6 +604,12 @@ class Builtins:
                     return k(st, PyV("tuple", [b for _, b in o.data], "list"))
             if isinstance(o, PyV) and o.kind == "superbase" and name == "__init__":
                 return k(st, SV("none", T.NONE))
+            if isinstance(o, PyV) and o.kind == "builtin" and o.data == "dict" and name == "__init__" and args \
+                    and isinstance(args[0], SV) and args[0].ty.kind == "ref":
+                # dict.__init__(self): the dict part of a dict subclass starts empty
+                sc = ex.schema_for(args[0].ty.args[0])
+                kk, vv = sc.dict_of
+                return k(ex.dict_self_write(args[0], SV(S.empty_map(kk, vv), T.Map(kk, vv)), st), SV("none", T.NONE))
             raise Unsupported("method %s on %r" % (name, o), node)
         # valmethod
         k_ = o.ty.kind
@@ -811,6 +817,13 @@ class Builtins:
         if name == "seq_has":
             x = ex.coerce(a[1], a[0].ty.args[0])
             return B(_member(a[0].t, x.t))
+        if name == "seq_snoc_lemma":
+            # valid facts of the theory of sequences about appending one element (stated for the solvers)
+            from .spec import parse_type
+            es = S.sort(parse_type(unslit(a[0].t)))
+            return B("(forall ((l (Seq %s)) (x %s)) (and (= (seq.len (seq.++ l (seq.unit x))) (+ (seq.len l) 1)) "
+                     "(= (seq.nth (seq.++ l (seq.unit x)) (seq.len l)) x) "
+                     "(forall ((j Int)) (=> (and (<= 0 j) (< j (seq.len l))) (= (seq.nth (seq.++ l (seq.unit x)) j) (seq.nth l j))))))" % (es, es))
         if name == "seq_member_index_lemma":
             # a member of a sequence sits at some index (fact of the theory of sequences, stated for the solver;
             # instantiated for one sequence term)
@@ -852,6 +865,17 @@ class Builtins:
         if name == "recs_of_class":
             ex.need_filters()
             return SV("(filtcls %s %s)" % (a[0].t, a[1].t), a[0].ty)
+        if name == "fresh":
+            # allocated now, not allocated in the pre-state
+            def alloc_of(state):
+                arr = state.heap.get(("$", "alloc")) if state is not None else None
+                if arr is None:
+                    if "alloc@0" not in self.cx.funs_known:
+                        self.cx.funs_known.add("alloc@0")
+                        self.cx.consts.append(("alloc@0", "(Array Int Bool)"))
+                    arr = "alloc@0"
+                return arr
+            return B(AND(NOT("(select %s %s)" % (alloc_of(st.old), a[0].t)), "(select %s %s)" % (alloc_of(st), a[0].t)))
         if name == "allocated":
             arr = st.heap.get(("$", "alloc"))
             if arr is None:
